@@ -56,23 +56,26 @@ inline Range range(bool utm, bool northp) {
 }
 
 // ---- the 100 km block and the in-block offset (micrometres) of a legal coordinate, after hemisphere folding
-struct Cell { bool throws; bool northp; int xh, yh; long long fx, fy; };
+struct Cell { bool throws; bool northp; int xh, yh; long long fx, fy; double yn; };   // yn = northing in the numbering of the folded hemisphere
 // zone in [0,60]; x, y finite
 inline Cell locate(int zone, bool northp, double x, double y) {
   bool utm = zone != 0;
   Range R = range(utm, northp);
-  Cell c{false, northp, 0, 0, 0, 0};
+  Cell c{false, northp, 0, 0, 0, 0, y};
   if (!(x >= R.xmin * 100000.0 && x <= R.xmax * 100000.0 && y >= R.ymin * 100000.0 && y <= R.ymax * 100000.0)) { c.throws = true; return c; }
-  // truncation to micrometres, exactly; a coordinate on the closed upper edge is taken just inside
-  long long ix = (x == R.xmax * 100000.0) ? R.xmax * M11 - 1 : mc::floor_div_exact(x, UM, 0, 1);
-  long long iy = (y == R.ymax * 100000.0) ? R.ymax * M11 - 1 : mc::floor_div_exact(y, UM, 0, 1);
+  // hemisphere folding of a UTM northing continued across the equator: the documented shift of 10^7 m is applied in
+  // double arithmetic (one correctly rounded addition; the subtraction is exact), the result is the coordinate that is
+  // truncated.  A southern northing of exactly 10^7 m (given, or produced by the rounding of the shift) stays southern.
+  double yy = y;
   if (utm) {
-    if (northp && iy < 0) { c.northp = false; iy += 100 * M11; }                     // "northern" northing below the equator
-    else if (!northp && y >= 10000000.0) {
-      if (y == 10000000.0) iy = 100 * M11 - 1;                                       // the equator itself stays southern (band M)
-      else { c.northp = true; iy -= 100 * M11; }
-    }
+    if (northp && y < 0) { c.northp = false; yy = y + 10000000.0; }
+    else if (!northp && y > 10000000.0) { c.northp = true; yy = y - 10000000.0; }
   }
+  // truncation to micrometres, exactly; a coordinate on a closed upper edge is taken just inside
+  long long ix = (x == R.xmax * 100000.0) ? R.xmax * M11 - 1 : mc::floor_div_exact(x, UM, 0, 1);
+  bool yedge = (y == R.ymax * 100000.0) || (utm && !c.northp && yy == 10000000.0);
+  long long iy = yedge ? (long long)(yy / 100000.0) * M11 - 1 : mc::floor_div_exact(yy, UM, 0, 1);
+  c.yn = yy;
   c.xh = int(ix / M11); c.yh = int(iy / M11); c.fx = ix % M11; c.fy = iy % M11;
   return c;
 }
